@@ -583,4 +583,27 @@ theorem once_run {dec : Str → Except Err (Packet × Nat)} {cfg : Cfg} {s : Srv
     rw [run_cons]
     exact (once_other h h1 h2 h3 k).trans (ih (h.step dec cfg _))
 
+/-! ### the disconnect handler does run -/
+
+/-- the disconnect path with a handler registered: exactly one invocation, with `sid, reason` -/
+theorem endSession_invokes (cfg : Cfg) (s : Srv) (sid : Sid) (ns : Ns) (reason : Str) (b : Bool)
+    {slot : Slot} {a : List J}
+    (hr : resolve cfg.reg ns (.str "disconnect".toList) [.str sid, .str reason] = .ok (.fn slot a) ∨
+          resolve cfg.reg ns (.str "disconnect".toList) [.str sid, .str reason] = .ok (.clsCall slot a)) :
+    (endSession cfg s sid ns reason b).2.1.filter Out.isInvoke = [.invoke slot a] ∧
+    ∃ pre, a = pre ++ [.str sid, .str reason] := by
+  constructor
+  · have hsend : ∀ (s' : Srv) (t : Option Eio) (p : Packet),
+        (if b = true then sendTo s' t p else []).filter Out.isInvoke = [] := by
+      intro s' t p
+      split
+      · exact sendTo_isInvoke ..
+      · rfl
+    unfold endSession
+    dsimp only
+    rcases hr with hr | hr <;> rw [hr] <;> dsimp only <;>
+      cases cfg.script.onDisconnect s.nDisc <;>
+      simp [List.filter_append, hsend, List.filter_cons, Out.isInvoke]
+  · rcases hr with hr | hr <;> exact resolve_args hr
+
 end Sio.Server
